@@ -18,9 +18,13 @@ Inductive op :=
 | CRenew     (* the client sends a renew OpenSecureChannel request (at most one outstanding) *)
 | SRecv      (* the server takes the next frame from the client->server link and processes it *)
 | SWrite     (* the server secures (under its current keys) and writes the next queued response *)
-| CRecv.     (* the client takes the next frame from the server->client link *)
+| CRecv      (* the client takes the next frame from the server->client link *)
+| CForge     (* a third party puts a frame on the client->server link, secured with keys of a token the
+                server never issued (same channel and token ids in the header) *)
+| SForge.    (* the same on the server->client link *)
 
-Inductive frame := FMsg (epoch : Z) | FOpn.        (* OPN frames are asymmetric: independent of the epoch *)
+Inductive frame := FMsg (epoch : Z) | FOpn | FBad.  (* OPN frames are asymmetric: independent of the epoch;
+                                                        FBad: secured under keys no endpoint ever derived *)
 Inductive resp := RMsg | ROpn.
 
 Record st := {
@@ -34,7 +38,8 @@ Record st := {
 Definition init : st := {| ce := 0; se := 0; renewing := false; c2s := []; sq := []; s2c := [] |}.
 
 (* observation codes: 1 message accepted, 0 message REJECTED, 2 renew request/response applied,
-   3 nothing to do, 4 sent *)
+   3 nothing to do, 4 sent, 5 forged frame rejected, 6 forged frame ACCEPTED (7/8: a renewal was
+   refused by the real code -- never produced by the model) *)
 Definition step (s : st) (o : op) : st * Z :=
   match o with
   | CSend =>
@@ -51,6 +56,8 @@ Definition step (s : st) (o : op) : st * Z :=
           else ({| ce := ce s; se := se s; renewing := renewing s; c2s := r; sq := sq s; s2c := s2c s |}, 0)
       | FOpn :: r =>
           ({| ce := ce s; se := se s + 1; renewing := renewing s; c2s := r; sq := sq s ++ [ROpn]; s2c := s2c s |}, 2)
+      | FBad :: r =>
+          ({| ce := ce s; se := se s; renewing := renewing s; c2s := r; sq := sq s; s2c := s2c s |}, 5)
       end
   | SWrite =>
       match sq s with
@@ -66,7 +73,13 @@ Definition step (s : st) (o : op) : st * Z :=
            if e =? ce s then 1 else 0)
       | FOpn :: r =>
           ({| ce := ce s + 1; se := se s; renewing := false; c2s := c2s s; sq := sq s; s2c := r |}, 2)
+      | FBad :: r =>
+          ({| ce := ce s; se := se s; renewing := renewing s; c2s := c2s s; sq := sq s; s2c := r |}, 5)
       end
+  | CForge =>
+      ({| ce := ce s; se := se s; renewing := renewing s; c2s := c2s s ++ [FBad]; sq := sq s; s2c := s2c s |}, 4)
+  | SForge =>
+      ({| ce := ce s; se := se s; renewing := renewing s; c2s := c2s s; sq := sq s; s2c := s2c s ++ [FBad] |}, 4)
   end.
 
 Definition case := list op.
@@ -78,10 +91,11 @@ Fixpoint run_from (s : st) (c : case) : list Z :=
   end.
 Definition run (c : case) : list Z := run_from init c.
 
-(* the property: every message in this model is correctly secured under the token current when it
-   was secured, so none may be rejected *)
+(* the property: every message in this model (other than a forged one) is correctly secured under
+   the token current when it was secured, so none may be rejected (no 0); a forged one must be
+   rejected (no 6); and a renewal is never refused (no 7, 8) *)
 Definition oracle (c : case) (out : list Z) : bool :=
-  (length out =? length c)%nat && forallb (fun x => negb (x =? 0)) out.
+  (length out =? length c)%nat && forallb (fun x => negb (x =? 0) && (x <? 6)) out.
 
 (* ---- the known classes: the two schedules around a renewal the single key slot cannot serve ---- *)
 Definition has_ropn (l : list resp) : bool := existsb (fun r => match r with ROpn => true | RMsg => false end) l.
